@@ -30,7 +30,9 @@ T3(a, b, c) == <<BehOps(a), BehOps(b), BehOps(c)>>
 GenAll == [Procs -> {BehOps(b) : b \in AllBehNames}]
 GenSome == [Procs -> {BehOps(b) : b \in {"none", "wh404", "twice", "afterw"}}]
 GenClasses == [Procs -> {BehOps(b) : b \in ClassBehNames \cup {"none"}}]
-GenEvery == [Procs -> {BehOps(b) : b \in AllBehNames \cup ClassBehNames}]
+GenEvery == [Procs -> {BehOps(b) : b \in AllBehNames \cup ClassBehNames \cup HijackBehNames}]
+GenHijack == [Procs -> {BehOps(b) : b \in HijackBehNames \cup {"none", "wh404"}}]
+GenEvery3 == [Procs -> {BehOps(b) : b \in AllBehNames \cup ClassBehNames \cup HijackBehNames}]
 GenThree == [Procs -> {BehOps(b) : b \in {"none", "wh404", "twice"}}]
 
 GInit == Init /\ running = 0 /\ hist = <<>>
@@ -52,7 +54,7 @@ FinOf(p) == LET I == {i \in 1..Len(records) : records[i].m = "finished" /\ recor
 Pred(p) == [fin |-> FinOf(p), expected |-> ExpectedFin(ops[p]), allowed |-> AllowedFin(ops[p]),
             status |-> ClientStatus(client[p]), calls |-> client[p]]
 
-Vector == [n |-> Cardinality(Procs), retain |-> Retain, gates |-> GateSet, mwon |-> MwEnabled,
+Vector == [n |-> Cardinality(Procs), retain |-> Retain, gates |-> GateSet, mwon |-> MwEnabled, forms |-> FormOf,
            ops |-> [p \in Procs |-> ops[p]],
            sched |-> hist,
            pred |-> [p \in Procs |-> Pred(p)]]
